@@ -2,6 +2,7 @@
 From mathcomp Require Import all_ssreflect all_algebra.
 From SsrMultinomials Require Import mpoly.
 From NP Require Import Base Poly Order Abs Clean Shape Align AlignIdem OrderP GenClean BridgeClean.
+From NP Require Import GenSource BridgeSrcC04.
 Set Implicit Arguments. Unset Strict Implicit. Unset Printing Implicit Defensive.
 Import GRing.Theory.
 Local Open Scope ring_scope.
@@ -59,6 +60,13 @@ Proof. exact: align_shape1_idem. Qed.
 
 End C04.
 
+(* the aligners of /repo's align.py are still, statement by statement, the modelled ones *)
+Theorem C04_sources_are_the_modelled_ones :
+  all (all id) [:: gen_src_align_polynomials; gen_src_align_shape; gen_src_align_indeterminants; gen_src_align_exponents] /\
+  [seq size f | f <- [:: gen_src_align_polynomials; gen_src_align_shape; gen_src_align_indeterminants; gen_src_align_exponents]]
+  = [:: 3; 4; 7; 6]%N.
+Proof. exact: bridge_src_C04. Qed.
+
 Print Assumptions C04_model_applies.
 Print Assumptions C04_align_shape.
 Print Assumptions C04_align_indeterminants.
@@ -69,3 +77,4 @@ Print Assumptions C04_common_rows_sorted_unique.
 Print Assumptions C04_idempotent.
 Print Assumptions C04_idempotent_names.
 Print Assumptions C04_idempotent_shape.
+Print Assumptions C04_sources_are_the_modelled_ones.
